@@ -169,9 +169,18 @@ def discharge_lib(site, bs):
                 return "C12.TUPLEOPT", "None is only assigned after the accumulator became Some; unwrap sits on the accumulator's None edge"
     # C12.TUPLEOPT, path-sensitive form: on every path to this unwrap its argument is known to be Some (helpers expanded;
     # the path on which an element failed has the accumulator Some and leaves before any unwrap)
-    if nm == "std::option::Option::unwrap" and kind == "tuple":
+    root_kind = kind
+    root_body = b
+    if kind is None and b.root != b.path:
+        # a closure of the impl (e.g. `finish(error, || (a.unwrap(), b.unwrap()))`): judged inside the impl it belongs to
+        for rb in b.crate.bodies:
+            if rb.path == b.root and rb.impl_self is not None and rb.name == "deserialize_from_value":
+                root_kind = coll.self_kind(rb)
+                root_body = rb
+    if nm == "std::option::Option::unwrap" and root_kind == "tuple":
         import inline
         import varpaths
+        b = root_body
         ib = inline.inlined(b.crate, b)
         iv = View(ib)
         at = t.get("at")
@@ -274,7 +283,7 @@ def discharge_error_type(site):
     if site.kind == "assert" and "Overflow(Add" in t["msg"]:
         # `*count += 1` in a self-recursive walk over an in-memory slice: at most one increment per element
         selfrec = any(c.fn is not None and c.krate == "deserr" and npath(c.path) == npath(site.b.path) for _, c in v.calls())
-        has_slice = any(site.b.crate.types[site.b.locals[i]["ty"]]["s"].startswith("&[") for i in range(1, site.b.arg_count + 1))
+        has_slice = any(site.b.crate.types[l_["ty"]]["s"].startswith("&[") for l_ in site.b.locals)
         for st in v.blocks[site.bb]["stmts"]:
             if st["k"] == "assign" and st["rv"]["k"] == "binop" and st["rv"]["op"] in ("AddWithOverflow", "Add"):
                 a = v.origin(st["rv"]["a"])
@@ -350,7 +359,7 @@ def run(ctx):
     total = 0
     by_rule = {}
     lib = None
-    for label, sc, local in scopes(ctx, inline=False):
+    for label, sc, local in scopes(ctx, inline=True):
         lib_crate = [c for c in sc.crates if c.name == "deserr"][0]
         panicky = local_panicky_fns(lib_crate)
         skels = {}
